@@ -303,6 +303,11 @@ class AXdrDecoder:
 
     def get_bytes(self, length: int) -> bytearray:
         """Gets some bytes from the buffer and moves the pointer forward."""
+        if self.pointer + length > len(self.buffer):
+            raise ValueError(
+                f"Not enough data. Tried to read {length} bytes at position "
+                f"{self.pointer} of {len(self.buffer)} bytes"
+            )
         part = self.buffer[self.pointer : self.pointer + length]
         self.pointer += length
         return part
